@@ -1,4 +1,4 @@
-(* Tie.v - re-proved on every run against the constants as /repo's source states them now.
+(* TieCodes.v - re-proved on every run against the constants as /repo's source states them now.
    A constant that is not written as an integer literal is None and is not tied. *)
 Require Import RP.Model.Base RP.Model.Packet RP.Model.Events RP.Generated.SourceConsts.
 
@@ -12,9 +12,4 @@ Theorem tie_codes_table : forallb (fun om => opt_is (fst om) (snd om)) (combine 
 Proof. reflexivity. Qed.
 (* no further event code constants exist *)
 Theorem tie_no_extra : source_extra_codes = [].
-Proof. reflexivity. Qed.
-(* pairwise distinct, as the source now states them *)
-Theorem tie_codes_nodup : NoDup (somes source_codes).
-Proof. repeat constructor; cbn; intuition discriminate. Qed.
-Theorem tie_broadcast : opt_is source_broadcast BROADCAST = true.
 Proof. reflexivity. Qed.
